@@ -439,7 +439,10 @@ func init() {
 		nullDenotation: func(p *parser, right ast.Expression, tokenRange ast.Range) (ast.Expression, error) {
 			switch right := right.(type) {
 			case *ast.IntegerExpression:
-				if right.Value.Sign() > 0 {
+				// NOTE: also for zero: -0 is the integer literal 0,
+				// just like -1 is the integer literal -1 (and -0.0 is a fixed-point literal),
+				// so that e.g. `let x: Int8 = -0` is inferred to be of the expected type
+				if right.Value.Sign() >= 0 {
 					if right.Value != nil {
 						right.Value.Neg(right.Value)
 					}
